@@ -43,6 +43,14 @@ func cliSide(r *mon.Run) {
 				sts = append(sts, s)
 			case "U":
 				sts = append(sts, refage.Stanza{Type: "unknown-x", Args: []string{"a"}, Body: make([]byte, 20)})
+			case "U0": // what keys.P("U0") emits: no arguments, nil body
+				sts = append(sts, refage.Stanza{Type: "grease-verif"})
+			case "Ea": // arguments only, empty body
+				sts = append(sts, refage.Stanza{Type: "empty-args", Args: []string{"a", "bb"}})
+			case "La": // arguments only, one long argument
+				sts = append(sts, refage.Stanza{Type: "long-arg", Args: []string{strings.Repeat("A", 3000)}})
+			case "B1":
+				sts = append(sts, refage.Stanza{Type: "one-byte", Args: []string{"x"}, Body: []byte{0x42}})
 			}
 		}
 		return refage.BuildFile(fk, sts, mon.DetBytes("c10cli-nonce-"+tag, 16), []byte("cli plaintext"))
@@ -56,6 +64,18 @@ func cliSide(r *mon.Run) {
 	var cases []cc
 	for _, kinds := range [][]string{{"S", "X"}, {"X", "S"}, {"U", "S"}, {"S", "U"}, {"S", "S"}, {"X", "S", "U"}, {"U", "U", "S"}, {"S", "X", "X", "U"}} {
 		cases = append(cases, cc{name: "multi[" + strings.Join(kinds, ",") + "]", file: build(strings.Join(kinds, ""), kinds, "10", 10)})
+	}
+	// resource-degenerate neighbours (empty bodies): the CLI's lazy passphrase
+	// identity must see them as neighbours too, at every position
+	emptyCases := 0
+	for _, kinds := range [][]string{{"S", "U0"}, {"U0", "S"}, {"U0", "S", "U0"}, {"Ea", "S"}, {"S", "La"}, {"U0", "Ea", "S"}, {"S", "U0", "U0", "Ea"}, {"B1", "S"}} {
+		cases = append(cases, cc{name: "multi[" + strings.Join(kinds, ",") + "]", file: build("e"+strings.Join(kinds, ""), kinds, "10", 10)})
+		if !strings.Contains(strings.Join(kinds, ","), "B1") {
+			emptyCases++ // every neighbour of S has an empty body
+		}
+	}
+	if emptyCases < 7 {
+		r.Inconclusive("vacuous: CLI stage holds only %d empty-body-neighbour cases", emptyCases)
 	}
 	for _, wf := range []string{"23", "24", "30", "31", "64", "010", "+10", "0x0a", "1e1", "10 ", "4294967306", "18446744073709551626"} {
 		if strings.ContainsAny(wf, " ") {
